@@ -31,7 +31,10 @@ def expand (limit : Nat) : Bytes → Nat → Option Bytes
     else if n.toNat > limit - used then none
     else (expand limit t (used + n.toNat)).map (List.replicate n.toNat b ++ ·)
 
-def codec (limit : Nat) : Codec := { cmp := compress, unc := fun y => expand limit y 0 }
+/-- the codec as the block processor uses it with `max_block_size = limit` (it never hands the compressor more
+than `limit` bytes; the guard only makes the round-trip contract unconditional) -/
+def codec (limit : Nat) : Codec :=
+  { cmp := fun x => if x.length ≤ limit then compress x else none, unc := fun y => expand limit y 0 }
 
 /-- never compresses: what the fragment model is run with when the real codec is zlib (the model's answers do
 not depend on the codec, `Sqfs.C08.frag_sound` holds for every codec with the round-trip contract) -/
